@@ -397,11 +397,14 @@ def availSeats (a : Alloc) (prev maxS : Seats) : List (Cand × Option Int) :=
   ((sortDesc (totalsInPlay a)).map (·.1)).map
     (fun c => (c, (maxGet maxS c).map (fun k => (k : Int) - (seatsGet prev c : Int))))
 
+/-- one addition of `sum(avail_seats.values())`; `none` = INF -/
+def availAdd (acc : Option Int) (p : Cand × Option Int) : Option Int :=
+  match acc, p.2 with
+  | some s, some k => some (s + k)
+  | _, _ => none
+
 /-- `tot_avail_seats` (L174) -/
-def totAvail (avail : List (Cand × Option Int)) : Option Int :=
-  avail.foldl (fun acc p => match acc, p.2 with
-    | some s, some k => some (s + k)
-    | _, _ => none) (some 0)
+def totAvail (avail : List (Cand × Option Int)) : Option Int := avail.foldl availAdd (some 0)
 
 /-- `tot_avail_seats == n_rem_seats and not self.mandatory_quota` (L175) -/
 def shortcutCond (cfg : Cfg) (a : Alloc) (nSeats : Nat) (prev maxS : Seats) : Bool :=
